@@ -385,6 +385,33 @@ static std::vector<Case> build_cases(mon::Rng& rng)
     };
     cs.push_back(c);
   }
+  // --- bool cells: the byte is CHECKED to be 0 or 1 and then delivered; what is delivered must be the byte that was checked.
+  // A source state whose byte is not a bool has no decoding (empty element: nothing delivered may equal it), so a delivered
+  // object holding such a byte is "never held by the source" -- only an abort or the value of the other state is acceptable
+  {
+    auto bool_elems = [](size_t n) { return [n](const Bytes& s) { std::vector<Bytes> out; for (size_t i = 0; i < n; i++) out.push_back(s[i] <= 1 ? Bytes{ s[i] } : Bytes{}); return out; }; };
+    const std::vector<Act> bool_acts = { A_FLIP, A_FILLFF, A_ZERO };
+    {
+      Case c; c.name = "copy_and_verify/volatile-bool"; c.off = 4280; c.len = 1; c.A = { 1 }; c.acts = bool_acts; c.elems = bool_elems(1);
+      c.call = [](Obs& o) { bool r = (*Wd::tptr<bool>(*SB, 4280)).copy_and_verify([&](bool v) { observe(o, &v, 1); return v; }); unsigned char rb; memcpy(&rb, &r, 1); set_result(o, rb); };
+      cs.push_back(c);
+    }
+    {
+      Case c; c.name = "copy_and_verify/pointer-to-bool"; c.off = 4284; c.len = 1; c.A = { 1 }; c.acts = bool_acts; c.elems = bool_elems(1);
+      c.call = [](Obs& o) { Wd::tptr<bool>(*SB, 4284).copy_and_verify([&](std::unique_ptr<bool> v) { if (v) observe(o, v.get(), 1); return 0; }); };
+      cs.push_back(c);
+    }
+    {
+      Case c; c.name = "copy_and_verify_range/bool4"; c.off = 4288; c.len = 4; c.A = { 1, 0, 1, 1 }; c.acts = bool_acts; c.elems = bool_elems(4);
+      c.call = [](Obs& o) { Wd::tptr<bool>(*SB, 4288).copy_and_verify_range([&](std::unique_ptr<bool[]> v) { if (v) observe(o, v.get(), 4); return 0; }, 4); };
+      cs.push_back(c);
+    }
+    {
+      Case c; c.name = "copy_and_verify/volatile-bool-array"; c.off = 4292; c.len = 4; c.A = { 0, 1, 1, 0 }; c.acts = bool_acts; c.elems = bool_elems(4);
+      c.call = [](Obs& o) { (*Wd::tptr<bool[4]>(*SB, 4292)).copy_and_verify([&](std::array<bool, 4> v) { observe(o, v.data(), 4); return 0; }); };
+      cs.push_back(c);
+    }
+  }
   // --- ranges
   {
     Case c; c.name = "copy_and_verify_range/char6"; c.off = 4300; c.len = 6; c.A = { 'r', 'a', 'n', 'g', 'e', '!' }; c.acts = val_acts;
